@@ -29,6 +29,18 @@ def witness_cases(ctx, pool, scale):
     for (px, py), s, h in [(a, 8, None), (a, Q - 1, (1, 1)), (a, Q - 1, (1, Q - 1)), (pyref.aff(Pn), 8, None), ((0, 1), Q - 1, (1, 1)),
                            ((5, 7), 8, None), (a, 0, None), ((0, 1), 0, (1, 1)), ((0, 1), 0, (1, Q - 1))]:
         cases.append(('r1.new', E(P), [px, py, s], h, ' enc=%x coords=%x,%x' % (s, px, py)))
+    # off-curve coordinates on the line through the origin and a decodable point (they satisfy the projective equality
+    # x_P*y_D = x_D*y_P used by is_eq): the origin itself and scalar multiples k*(x,y), with the encoding of the true point
+    encs = list(zip(pool.base[2:2 + len(pool.encodable)], pool.encodable))  # el.dec results follow the constants/elligator outputs
+    pts = []
+    for sv in pool.encodable[1:4] + [8]:
+        d = pyref.decode_spec(sv)
+        if d is not None: pts.append((d, sv))
+    for (x, y), sv in pts[:3 + scale]:
+        for k in [0, 2, Q - 2, gen.rand_field(rng, Q)]:
+            cases.append(('r1.new', E(P), [k * x % Q, k * y % Q, sv], None, ' enc=%x coords=%x,%x' % (sv, k * x % Q, k * y % Q)))
+    for sv in (0, 8):
+        cases.append(('r1.new', E(P), [0, 0, sv], None, ' enc=%x coords=0,0' % sv))
     return cases
 
 def classify(op, margs, hint):
